@@ -45,6 +45,6 @@ def run(ctx):
             "steady/jitter/bursty/stalled/resumed x interval settings x peer populations",
         ],
         search=search,
-        partial=["settles_partial (SettlesStatement unproved: global convergence of the alternating search)"],
+        partial=["SettlesStatement (eventually every wait within a factor two of the period) stays open: it reduces to excluding cycles of a Collatz-like map on the explore distance (search_overshoot_can_grow shows no neighbourhood of the period is absorbing); proved for all parameters: cadence_straddles_period (lim inf interval <= period <= lim sup), no_collapse, no_drift, interval_returns_to_period, closed_loop_holds_period / settles_if_period_hit, settles_unless_exceptional, band_absorbing_unless_exceptional, search_turn_contracts"],
         extra_cov={"rounds_of_real_run_loop": rounds, "real_polls": polls},
     )
